@@ -208,6 +208,45 @@ def run(chk: Check):
                 if coq_pyval(v) is not None:
                     attr_cases.append((cid, attr, v, res))
 
+        # the same on an instance for which the device has reported NOTHING yet (every attribute reads None),
+        # each value written twice in a row: a write must not make anything readable, and a value that is
+        # rejected once is rejected again, with nothing transmitted either time
+        conn2 = make_connection()
+        inst2 = cls(conn2)
+
+        def snapshot2():
+            return [(n, canon_value(h.value)) for n, h in inst2.function_handlers.items()]
+
+        for attr, f in funcs:
+            if Cmd.PUT not in f.cmd:
+                continue
+            for v, exp in values_for(f, rng, enums, stepinfo):
+                if exp[0] not in ("put", "step", "raise"):
+                    continue
+                outcomes = []
+                for rep in (0, 1):
+                    before = snapshot2()
+                    n0 = len(conn2._protocol.sent)
+                    try:
+                        setattr(inst2, attr, v)
+                        res = ("ok", conn2._protocol.sent[n0:])
+                    except Exception as e:  # noqa
+                        res = ("raise", type(e).__name__, conn2._protocol.sent[n0:])
+                    after = snapshot2()
+                    outcomes.append(res)
+                    dist["assignments"] += 1
+                    chk.count_case(["assign-unreported", cid, attr, repr(v), rep], True)
+                    rep_d = {"class": cls.__name__, "attr": attr, "value": repr(v), "observed": repr(res), "on": "an instance nothing was reported to", "repetition": rep}
+                    if before != after:
+                        chk.violation(f"{cls.__name__}.{attr}:cache-touched", f"{cls.__name__}.{attr} = {v!r} on a subunit the device has reported nothing to made attributes readable: {[(a, b) for a, b in zip(before, after) if a != b][:2]}", rep_d)
+                    sent = res[1] if res[0] == "ok" else res[2]
+                    if exp[0] == "raise" and (res[0] != "raise" or sent):
+                        chk.violation(f"{cls.__name__}.{attr}:out-of-domain", f"{cls.__name__}.{attr} = {v!r} (assignment #{rep + 1} of the same value) must raise and transmit nothing, got {res!r}", rep_d)
+                    if exp[0] in ("put", "step") and (res[0] != "ok" or len(sent) != 1):
+                        chk.violation(f"{cls.__name__}.{attr}:valid-put", f"{cls.__name__}.{attr} = {v!r} (assignment #{rep + 1} of the same value): expected exactly one PUT, got {res!r}", rep_d)
+                if outcomes[0] != outcomes[1]:
+                    chk.violation(f"{cls.__name__}.{attr}:history-dependent", f"{cls.__name__}.{attr} = {v!r} twice in a row: first {outcomes[0]!r}, then {outcomes[1]!r}", {"class": cls.__name__, "attr": attr, "value": repr(v)})
+
         # action methods
         base = set(dir(SubunitBase))
         for m in sorted(dir(cls)):
